@@ -11,6 +11,10 @@ import RoaringModel.Safe
 import RoaringModel.Lemmas.SafeLemmas
 import RoaringModel.Lemmas.FidelityFmt
 import RoaringModel.Props.C10
+import RoaringModel.SafeCodec
+import RoaringModel.Lemmas.SafeCodecLemmas
+import RoaringModel.SafeCompose
+import RoaringModel.Lemmas.SafeComposeLemmas
 /-!
 # C16 — public operations are total: only the documented panics (property theorems)
 
@@ -36,6 +40,11 @@ at the documented panics:
   crate-private functions (`ArrayStore::remove_smallest/remove_biggest`: `n ≤ len`, discharged at the public entry
   points in `C16_safe_removeSmallest/Biggest`) and the `u64` sums of a treemap holding all `2^64` values
   (`C16_safe_treemap_len_iff`, `C16_treemap_len_2p64_observation`).
+* **codec area** (last section; predicates in `RoaringModel/SafeCodec.lean`): `deserialize_from_impl` on arbitrary input
+  bytes over any reader (`C16_safe_deserialize*`), `intersection_with_serialized_unchecked` on arbitrary bytes
+  (`C16_safe_interSer`), `from_lsb0_bytes` with its store constructors on the documented domain (`C16_safe_fromLsb0`,
+  `C16_safe_lsb0_store`), the treemap `serialized_size` / `serialize_into` / `deserialize_from`
+  (`C16_safe_treemap_serialize`, `C16_safe_treemap_deserialize*`).
 -/
 namespace Roaring.C16
 open Roaring Roaring.MiscLemmas
@@ -654,5 +663,350 @@ example : Treemap.Safe_select [(0, exB), (4294967295, exB)] 65540 := by
   intro p hp
   simp only [List.mem_cons, List.not_mem_nil, or_false] at hp
   rcases hp with rfl | rfl <;> exact ⟨by decide, exB_wf⟩
+
+/-! ## Codec area (SafeCodec.lean)
+
+The decoders, the intersection with a serialized bitmap, `from_lsb0_bytes` and the treemap codec: every `+`, `-`, `*`,
+`<<`, `>>`, index / slice range and narrowing cast of these functions, listed with `file:line` in
+`RoaringModel/SafeCodec.lean`.  The decoder theorems quantify over ARBITRARY input bytes (no conformance hypothesis):
+the arithmetic executed before the decoder returns — with a value or with an `Err` — is panic-free on every input.
+
+Running examples: `runStream` (a conformant stream with one run chunk: cookie `12347`, run bitmap `[1]`, one
+description, no offset table, the run `10..=14`), `arrStream` (two array chunks, cookie `12346`, with offsets). -/
+
+/-- cookie `12347 | (1-1) << 16`, run bitmap `0b1`, description `(key 0, card-1 = 4)`, `runs = 1`, run `(10, 4)` -/
+def runStream : List Nat := [59, 48, 0, 0,  1,  0, 0, 4, 0,  1, 0,  10, 0, 4, 0]
+
+/-- the serialization of `{1, 2, 3} ∪ {5·65536 + 7}` -/
+def arrStream : List Nat := Bitmap.serialize [⟨0, .array [1, 2, 3]⟩, ⟨5, .array [7]⟩]
+
+example : deserialize true true runStream = .ok ([⟨0, .array [10, 11, 12, 13, 14]⟩], []) := by rfl
+
+/-- **`deserialize_from` / `deserialize_unchecked_from` (`deserialize_from_impl`, bitmap/serialization.rs:170-271)** on
+    ANY byte string, in both build profiles: `(cookie >> 16) + 1`, `(size + 7) / 8`, `size * 4`, `u64::from(card) + 1`,
+    `bm[i / 8] & (1 << (i % 8))`, `cardinality as usize`, the `usize` sum of the run lengths, every
+    `Store::insert_range` of the run replay on the evolving store (array_store/mod.rs:89-107, bitmap_store.rs:116-161),
+    the `u64` sum of `BitmapStore::try_from`, `ensure_correct_store` — none overflows, indexes out of range or loses
+    bits in a cast. -/
+theorem C16_safe_deserialize (chk dbg : Bool) (bs : List Nat) (hb : ∀ x ∈ bs, x < 256) :
+    Safe_deserialize readN chk dbg bs := safe_deserialize readerOK_readN chk dbg bs hb
+example : Safe_deserialize readN true true runStream := C16_safe_deserialize _ _ _ (by decide)
+example : Safe_deserialize readN false false (arrStream.take 21) := C16_safe_deserialize _ _ _ (by decide)
+/-- the predicates are evaluable on concrete streams (this is what the driver does) -/
+example : Safe_deserialize readN true true runStream ∧ Safe_deserialize readN true false arrStream := by decide +kernel
+/-- teeth: a run-flag lookup for container 8 in a 1-byte run bitmap is out of range; replaying a run into an array
+    store that is not sorted underflows `… + 1 - dropped.len()`; a cardinality field that is not a `u16` -/
+example : ¬ Safe_descr (some [1]) 8 4 ∧ ¬ Safe_replayRuns (.array [5, 5, 5, 4]) [(4, 2)]
+    ∧ ¬ Safe_descr none 0 18446744073709551615 := by decide
+
+/-- … over every reader that honours the `read_exact` contract (`ReaderOK`: a successful `read_exact(n)` returns `n`
+    bytes), from every reader state; instances: the slice reader, the `Cursor` of `SerOps.lean` and … -/
+theorem C16_safe_deserialize_reader {σ : Type} (Good : σ → Prop) (R : Nat → Parser σ (List Nat))
+    (hR : ReaderOK Good R) (chk dbg : Bool) (s : σ) (hs : Good s) : Safe_deserialize R chk dbg s :=
+  safe_deserialize hR chk dbg s hs
+
+/-- … the scheduled reader of `IO.lean` (C14): any chunking of the stream, any number of `Interrupted` results. -/
+theorem C16_safe_deserialize_sched (chk dbg : Bool) (data : List Nat) (hb : ∀ x ∈ data, x < 256) (sched : List IoEv) :
+    Safe_deserialize SReader.readExact chk dbg ⟨data, sched⟩ :=
+  safe_deserialize readerOK_sched chk dbg ⟨data, sched⟩ hb
+example : Safe_deserialize SReader.readExact true true ⟨runStream, [.chunk 3, .intr, .chunk 1]⟩ :=
+  C16_safe_deserialize_sched _ _ _ (by decide) _
+
+/-- **`intersection_with_serialized_unchecked` (bitmap/ops_with_serialized.rs:44-277)** for any receiver and ANY bytes
+    in a `Cursor` (`bytes.len() < 2^63`: a Rust slice / `Vec` never exceeds `isize::MAX` bytes): the header arithmetic,
+    `offsets[i]`, `descriptions[i]`, `bm[i / 8]`, `u64::from(len_minus_one) + 1`, the chunk readers, and on the
+    sequential path the skip sizes `size_of::<u16>() * 2 * runs as usize`, `size_of::<u16>() * cardinality as usize`,
+    `size_of::<u64>() * BITMAP_LENGTH`, their `as i64` casts and the resulting cursor position.  (The in-memory
+    `other_container &= container` is outside these predicates, see SafeCodec.lean.) -/
+theorem C16_safe_interSer (dbg : Bool) (a : Bitmap) (bytes : List Nat) (hb : ∀ x ∈ bytes, x < 256)
+    (hlen : bytes.length < 9223372036854775808) : Safe_interSer dbg a bytes := safe_interSer dbg a bytes hb hlen
+/-- sequential path (run cookie, fewer than 4 containers), once reading and once skipping the run chunk -/
+example : Safe_interSer true [⟨0, .array [12]⟩] runStream ∧ Safe_interSer true exB.tail runStream :=
+  ⟨C16_safe_interSer _ _ _ (by decide) (by decide), C16_safe_interSer _ _ _ (by decide) (by decide)⟩
+/-- offset path -/
+example : Safe_interSer false exB arrStream := C16_safe_interSer _ _ _ (by decide) (by decide)
+example : Safe_interSer true [⟨0, .array [12]⟩] runStream ∧ Safe_interSer false exB arrStream := by decide +kernel
+/-- teeth: a skip from a cursor position at the very end of the `u64` range; an offset table shorter than the
+    descriptions -/
+example : ¬ Safe_seekCur ⟨[], 18446744073709551615⟩ 8192
+    ∧ ¬ Safe_interOffsets true ⟨1, true, none, [(0, 0)], []⟩ [⟨0, .array [1]⟩] ⟨[], 0⟩ := by decide
+
+/-- **`from_lsb0_bytes` (bitmap/inherent.rs:87-171) on the documented domain `offset + 8·len ≤ 2^32`**, with
+    `Container::from_lsb0_bytes` → `Store::from_lsb0_bytes` (store/mod.rs:54-81) → `ArrayStore::from_lsb0_bytes`
+    (array_store/mod.rs:57-82) / `BitmapStore::from_lsb0_bytes_unchecked` (bitmap_store.rs:44-88): the shifts of
+    `shift_bytes` (`byte << amount`, `8 - amount`, `byte >> (8 - amount)` with `amount = offset % 8 ∈ 1..=7`),
+    `offset - shift as u32`, `len_bits - 1`, `>> 16`, `end_container_inc + 1 - start_container`,
+    `end_byte - start_offset`, the three `split_at`s, the three `as u16` key casts (lossless),
+    `start_container += 1`; at store level the `assert!`s, the `u64` bit count, `(byte_offset + index * 8) * 8`,
+    `bit_index as u32`, `(trailing_zeros + bit_index as u32) as u16` (lossless), `bytes.len() - remainder.len()`,
+    `dst[byte_offset..][..bytes.len()]`. -/
+theorem C16_safe_fromLsb0 (dbg : Bool) (off : Nat) (bytes : List Nat) (hb : ∀ b ∈ bytes, b < 256)
+    (hfit : off + 8 * bytes.length ≤ 4294967296) : Lsb0.Safe_fromLsb0 dbg off bytes :=
+  Lsb0.safe_fromLsb0 dbg off bytes hb hfit
+/-- the doc-test of the crate (`offset = 3`, unaligned), and the last byte of the universe -/
+example : Lsb0.Safe_fromLsb0 true 3 [5, 2, 0, 128] ∧ Lsb0.Safe_fromLsb0 true 4294967288 [128] :=
+  ⟨C16_safe_fromLsb0 _ _ _ (by decide) (by decide), C16_safe_fromLsb0 _ _ _ (by decide) (by decide)⟩
+example : Lsb0.Safe_fromLsb0 true 65531 [255, 255, 1] := by decide +kernel
+/-- teeth: `shift_bytes` with `amount = 0` would evaluate `byte >> 8` on a `u8`; one byte past the domain the
+    predicate holds only vacuously (documented `expect` panic), while a store-level call that does not fit its chunk
+    fails the `assert!` -/
+example : ¬ Lsb0.Safe_shiftBytes [1] 0 ∧ ¬ Lsb0.Safe_storeFromLsb0 true [1] 8192
+    ∧ ¬ Lsb0.Safe_arrWords 8185 0 [9223372036854775808] := by decide +kernel
+
+/-- the store-level constructor alone, for every piece that fits its chunk (`byte_offset + len ≤ 8192`, the
+    `assert!` of store/mod.rs:55 — the callers' obligation, discharged in `C16_safe_fromLsb0`). -/
+theorem C16_safe_lsb0_store (dbg : Bool) (bytes : List Nat) (bo : Nat) (hb : ∀ b ∈ bytes, b < 256)
+    (hfit : bo + bytes.length ≤ 8192) : Lsb0.Safe_storeFromLsb0 dbg bytes bo :=
+  Lsb0.safe_storeFromLsb0 dbg bytes bo hb hfit
+example : Lsb0.Safe_storeFromLsb0 true [255, 0, 0, 0, 0, 0, 0, 0, 129] 8183 :=
+  C16_safe_lsb0_store _ _ _ (by decide) (by decide)
+
+/-- **`RoaringTreemap::serialized_size` / `serialize_into` (treemap/serialization.rs:22-52)** for well-formed partitions
+    (at most `2^32` of them — the keys are distinct `u32`s): the `usize` fold `acc + size_of::<u32>() +
+    bitmap.serialized_size()` (`≤ 8 + 2^32 · (4 + 8 + 65536 · 8200) < 2^62`), `self.map.len() as u64`, and per
+    partition the 32-bit `serialized_size` / `serialize_into` (`C16_safe_serialize`). -/
+theorem C16_safe_treemap_serialize (t : Treemap) (h : Treemap.PartsWF t) (hl : t.length ≤ 4294967296) :
+    Treemap.Safe_serializedSize t ∧ Treemap.Safe_serialize t :=
+  ⟨Treemap.safe_serializedSize t h hl, Treemap.safe_serialize t h hl⟩
+example : Treemap.Safe_serializedSize [(0, exB), (4294967295, exB)] ∧ Treemap.Safe_serialize [(0, exB), (4294967295, exB)] := by
+  refine C16_safe_treemap_serialize _ ?_ (by decide)
+  intro p hp
+  simp only [List.mem_cons, List.not_mem_nil, or_false] at hp
+  rcases hp with rfl | rfl <;> exact ⟨by decide, exB_wf⟩
+/-- teeth: a key that is not a `u32`; a partition with an empty container (`(container.len() - 1) as u16`) -/
+example : ¬ Treemap.Safe_serialize [(4294967296, [])] ∧ ¬ Treemap.Safe_serialize [(0, [⟨0, .array []⟩])] := by decide
+
+/-- **`RoaringTreemap::deserialize_from` / `deserialize_unchecked_from` (treemap/serialization.rs:71-119)** on ANY byte
+    string: the `u64` count, the loop `for _ in 0..size`, the `u32` keys, and inside every iteration the whole 32-bit
+    decoder (`C16_safe_deserialize`) from the reader state the previous iterations left. -/
+theorem C16_safe_treemap_deserialize (chk dbg : Bool) (bs : List Nat) (hb : ∀ x ∈ bs, x < 256) :
+    Treemap.Safe_deserialize readN chk dbg bs := Treemap.safe_deserialize readerOK_readN chk dbg bs hb
+/-- two partitions (keys 0 and 7), the second one a run stream; and a count of `2^64 - 1` over a 12-byte input -/
+example : Treemap.Safe_deserialize readN true true
+      ([2, 0, 0, 0, 0, 0, 0, 0] ++ [0, 0, 0, 0] ++ arrStream ++ [7, 0, 0, 0] ++ runStream)
+    ∧ Treemap.Safe_deserialize readN true true ([255, 255, 255, 255, 255, 255, 255, 255] ++ [1, 0, 0, 0]) :=
+  ⟨C16_safe_treemap_deserialize _ _ _ (by decide), C16_safe_treemap_deserialize _ _ _ (by decide)⟩
+example : Treemap.Safe_deserialize readN true true
+    ([2, 0, 0, 0, 0, 0, 0, 0] ++ [0, 0, 0, 0] ++ arrStream ++ [7, 0, 0, 0] ++ runStream) := by decide +kernel
+
+/-- … over every reader that honours `read_exact`, e.g. the scheduled reader. -/
+theorem C16_safe_treemap_deserialize_reader {σ : Type} (Good : σ → Prop) (R : Nat → Parser σ (List Nat))
+    (hR : ReaderOK Good R) (chk dbg : Bool) (s : σ) (hs : Good s) : Treemap.Safe_deserialize R chk dbg s :=
+  Treemap.safe_deserialize hR chk dbg s hs
+/-! ## Compositions (SafeCompose.lean)
+
+One predicate and one theorem per PUBLIC method: the method's own arithmetic / indexing together with the side
+conditions of every callee on the value it is actually called with (the index a binary search returned, the container
+just created, the container vector after the iterations before, the running counter).  Loop predicates recurse over the
+list the model's loop recurses over and carry the loop state, so they speak about every iteration. -/
+
+/-- `RoaringBitmap::insert` (inherent.rs:188-198): `util::split`, `self.containers[loc]` on `Ok(loc)`,
+    `self.containers.insert(loc, …)` + `self.containers[loc]` on `Err(loc)`, then `Container::insert`
+    (container.rs:50-57: the store call and `ensure_correct_store` on the store it produced). -/
+theorem C16_safe_bitmap_insert (b : Bitmap) (h : b.WF) (v : Nat) (hv : v < 4294967296) : Bitmap.Safe_insert b v :=
+  Bitmap.safe_bitmap_insert b h.storesInv v hv
+example : Bitmap.Safe_insert exB 70000 ∧ Bitmap.Safe_insert exB 131072 :=
+  ⟨C16_safe_bitmap_insert exB exB_wf _ (by decide), C16_safe_bitmap_insert exB exB_wf _ (by decide)⟩
+/-- teeth: a bitset chunk whose cached `len` is `u64::MAX` makes `self.len += 1` overflow inside `insert` -/
+example : ¬ Bitmap.Safe_insert [⟨0, .bitmap { len := wMax, bits := BStore.zeros }⟩] 5 := by decide +kernel
+
+/-- `RoaringBitmap::remove` (inherent.rs:348-363): `self.containers[loc]` (:352, :353), `Container::remove`
+    (container.rs:95-102), `self.containers.remove(loc)` (:354). -/
+theorem C16_safe_bitmap_remove (b : Bitmap) (h : b.WF) (v : Nat) (hv : v < 4294967296) : Bitmap.Safe_remove b v :=
+  Bitmap.safe_bitmap_remove b h.storesInv v hv
+example : Bitmap.Safe_remove exB 2 ∧ Bitmap.Safe_remove exB 196607 :=
+  ⟨C16_safe_bitmap_remove exB exB_wf _ (by decide), C16_safe_bitmap_remove exB exB_wf _ (by decide)⟩
+/-- teeth: with a cached `len` of 0 over non-empty words `self.len -= 1` underflows inside `remove` -/
+example : ¬ Bitmap.Safe_remove [⟨2, .bitmap { len := 0, bits := List.replicate 1024 wMax }⟩] 131072 := by
+  decide +kernel
+
+/-- `RoaringBitmap::contains` (inherent.rs:423-429). -/
+theorem C16_safe_bitmap_contains (b : Bitmap) (h : b.WF) (v : Nat) (hv : v < 4294967296) : Bitmap.Safe_contains b v :=
+  Bitmap.safe_bitmap_contains b h.storesInv v hv
+example : Bitmap.Safe_contains exB 131073 := C16_safe_bitmap_contains exB exB_wf _ (by decide)
+/-- teeth: a bitset chunk with too few words makes `self.bits[key(index)]` go out of range -/
+example : ¬ Bitmap.Safe_contains [⟨0, .bitmap { len := 5000, bits := [1, 2, 3] }⟩] 4000 := by decide
+
+/-- `RoaringBitmap::min` / `max` (inherent.rs:648-650, :667-669): the store call and `util::join`. -/
+theorem C16_safe_bitmap_min_max (b : Bitmap) (h : b.WF) : Bitmap.Safe_min b ∧ Bitmap.Safe_max b :=
+  ⟨Bitmap.safe_bitmap_min b h, Bitmap.safe_bitmap_max b h⟩
+example : Bitmap.Safe_min exB ∧ Bitmap.Safe_max exB := C16_safe_bitmap_min_max exB exB_wf
+
+/-- `RoaringBitmap::push` (inherent.rs:295-309): `Container::push` on the last container or on a new one
+    (container.rs:74-81; `BitmapStore::push` evaluates `self.max()` and calls `insert`). -/
+theorem C16_safe_bitmap_push (b : Bitmap) (h : b.WF) (v : Nat) (hv : v < 4294967296) : Bitmap.Safe_push b v :=
+  Bitmap.safe_bitmap_push b h.storesInv v hv
+example : Bitmap.Safe_push exB 4294967295 ∧ Bitmap.Safe_push exB 196607 ∧ Bitmap.Safe_push exB 7 :=
+  ⟨C16_safe_bitmap_push exB exB_wf _ (by decide), C16_safe_bitmap_push exB exB_wf _ (by decide),
+   C16_safe_bitmap_push exB exB_wf _ (by decide)⟩
+
+/-- `RoaringBitmap::push_unchecked` (inherent.rs:318-333, crate-private) under its documented precondition
+    (`value` above every element): neither the explicit `panic!("last container key > key of value")` nor the
+    store-level `assert!(index > max)` fires (they are conjuncts of the predicate), and the store / container calls
+    are safe. -/
+theorem C16_safe_bitmap_pushUnchecked (dbg : Bool) (b : Bitmap) (h : b.WF) (v : Nat) (hv : v < 4294967296)
+    (hmax : ∀ x ∈ Bitmap.elems b, x < v) : Bitmap.Safe_pushUnchecked dbg b v :=
+  Bitmap.safe_bitmap_pushUnchecked dbg b h v hv hmax
+example : Bitmap.Safe_pushUnchecked true [⟨0, .array [1, 2, 3]⟩] 9 :=
+  C16_safe_bitmap_pushUnchecked true _ ((bitmapWF_iff _).1 ⟨by decide, fun c hc => by
+    simp at hc; subst hc; exact ⟨by decide, by decide, by decide, by decide⟩⟩) 9 (by decide) (by decide)
+/-- teeth: the precondition is needed — below the maximum the debug assertion fires (and only in a debug build) -/
+example : ¬ Bitmap.Safe_pushUnchecked true [⟨0, .array [1, 2, 3]⟩] 2
+    ∧ Bitmap.Safe_pushUnchecked false [⟨0, .array [1, 2, 3]⟩] 2 := by decide
+
+/-- `RoaringBitmap::remove_range`, the whole method (inherent.rs:379-407): `util::split`; at EVERY iteration of
+    `while index < self.containers.len()` — on the container vector as the iterations before left it — the index is
+    below the length (:393, :397, :398, :399 `self.containers.remove(index)`), the container call receives
+    `a ≤ b ≤ u16::MAX` and is safe (container.rs:104-108, store/mod.rs:134-143 and the store code below it,
+    `ensure_correct_store` on the store it produced), `removed += …` fits `u64`, `index += 1` fits `usize`. -/
+theorem C16_safe_bitmap_removeRange (b : Bitmap) (h : b.WF) (lo hi : Bound)
+    (hlo : Bound.le u32Max lo) (hhi : Bound.le u32Max hi) : Bitmap.Safe_removeRange b lo hi :=
+  Bitmap.safe_bitmap_removeRange b h lo hi hlo hhi
+example : Bitmap.Safe_removeRange exB (.incl 2) (.excl 140000) ∧ Bitmap.Safe_removeRange exB .unb .unb :=
+  ⟨C16_safe_bitmap_removeRange exB exB_wf _ _ (by decide) (by decide),
+   C16_safe_bitmap_removeRange exB exB_wf _ _ (by decide) (by decide)⟩
+/-- teeth: on a chunk whose cached `len` is too small, `self.len -= removed` underflows inside the loop -/
+example : ¬ Bitmap.Safe_removeRange [⟨2, .bitmap { len := 0, bits := List.replicate 1024 wMax }⟩]
+    (.incl 131072) (.incl 131080) := by decide +kernel
+
+/-- the iteration states that `Bitmap.Safe_removeRangeLoop` visits are the model's: the state-passing loop it follows
+    (`done` = `self.containers[..index]`, counter `removed`) ends in the result of the model's `removeRangeLoop`. -/
+theorem C16_safe_bitmap_removeRange_follows_model (sk si ek ei : Nat) (b : Bitmap) :
+    Bitmap.removeRangeIter sk si ek ei [] b 0 = Bitmap.removeRangeLoop sk si ek ei b := by
+  rw [Bitmap.removeRangeIter_eq]; simp
+
+/-- `Extend<u32>::extend` / `FromIterator` (iter.rs:736-760, :702-706): per value the whole of `insert`
+    (`util::split`, `find_container_by_key`, `self.containers[index]`, `Container::insert`) on the bitmap as the values
+    before it left it. -/
+theorem C16_safe_bitmap_extend (b : Bitmap) (h : b.WF) (vs : List Nat) (hvs : ∀ v ∈ vs, v < 4294967296) :
+    Bitmap.Safe_extend b vs := Bitmap.safe_bitmap_extend vs b h hvs
+example : Bitmap.Safe_extend exB [5, 70000, 1, 4294967295] := C16_safe_bitmap_extend exB exB_wf _ (by decide)
+
+/-- `RoaringBitmap::append` / `from_sorted_iter` (iter.rs:843-876, :817-823), for an iterator of any length:
+    `self.max()`, every `push_unchecked` (whose precondition `append` establishes, so no debug assertion fires),
+    `count += 1` (`count ≤ prev + 1 ≤ 2^32`). -/
+theorem C16_safe_bitmap_append (dbg : Bool) (b : Bitmap) (h : b.WF) (vs : List Nat)
+    (hvs : ∀ v ∈ vs, v < 4294967296) : Bitmap.Safe_append dbg b vs := Bitmap.safe_bitmap_append dbg b h vs hvs
+example : Bitmap.Safe_append true exB [200000, 200001, 4294967295] ∧ Bitmap.Safe_append true exB [200000, 7] :=
+  ⟨C16_safe_bitmap_append true exB exB_wf _ (by decide), C16_safe_bitmap_append true exB exB_wf _ (by decide)⟩
+
+/-! ### `RoaringTreemap` as a whole (treemap/inherent.rs, treemap/iter.rs) -/
+
+/-- `RoaringTreemap::insert` / `remove` / `contains` (treemap/inherent.rs:50-53, :177-192, :253-259): `util::split` and
+    the whole 32-bit method on the partition (`entry(hi).or_default()`: the existing partition or `new()`). -/
+theorem C16_safe_treemap_insert_remove_contains (t : Treemap) (hw : Treemap.TWF t) (v : Nat) (hv : v < 2^64) :
+    Treemap.Safe_insert t v ∧ Treemap.Safe_remove t v ∧ Treemap.Safe_contains t v :=
+  ⟨Treemap.safe_tm_insert t hw v hv, Treemap.safe_tm_remove t hw v hv, Treemap.safe_tm_contains t hw v hv⟩
+example : Treemap.Safe_insert C12.tEx 8589934595 ∧ Treemap.Safe_remove C12.tEx 8589934595 ∧
+    Treemap.Safe_contains C12.tEx 8589934595 :=
+  C16_safe_treemap_insert_remove_contains C12.tEx C12.tEx_TWF _ (by decide)
+
+/-- `RoaringTreemap::push` (treemap/inherent.rs:126-139). -/
+theorem C16_safe_treemap_push (t : Treemap) (hw : Treemap.TWF t) (v : Nat) (hv : v < 2^64) : Treemap.Safe_push t v :=
+  Treemap.safe_tm_push t hw v hv
+example : Treemap.Safe_push C12.tEx 18446744073709551615 := C16_safe_treemap_push C12.tEx C12.tEx_TWF _ (by decide)
+
+/-- `RoaringTreemap::push_unchecked` (treemap/inherent.rs:147-162) under its precondition: the explicit
+    `panic!("last bitmap key > key of value")` does not fire and the 32-bit `push_unchecked` is safe. -/
+theorem C16_safe_treemap_pushUnchecked (dbg : Bool) (t : Treemap) (hw : Treemap.TWF t) (v : Nat) (hv : v < 2^64)
+    (hmax : ∀ x ∈ Treemap.elems t, x < v) : Treemap.Safe_pushUnchecked dbg t v :=
+  Treemap.safe_tm_pushUnchecked dbg t hw v hv hmax
+example : Treemap.Safe_pushUnchecked true C12.tEx 17179869192 :=
+  C16_safe_treemap_pushUnchecked true C12.tEx C12.tEx_TWF _ (by decide) (by decide)
+/-- teeth: a value in an earlier partition hits the explicit `panic!` in a debug build -/
+example : ¬ Treemap.Safe_pushUnchecked true C12.tEx 4294967296 := by decide
+
+/-- `RoaringTreemap::max` (treemap/inherent.rs:366-372): every `rb.max()` the scan evaluates, `util::join`. -/
+theorem C16_safe_treemap_max (t : Treemap) (hw : Treemap.TWF t) : Treemap.Safe_max t := Treemap.safe_tm_max t hw
+example : Treemap.Safe_max C12.tEx := C16_safe_treemap_max C12.tEx C12.tEx_TWF
+
+/-- `RoaringTreemap::insert_range`, the whole method (treemap/inherent.rs:70-107; one, two and three or more
+    partitions): `util::split`; at EVERY iteration of `for hi in start_hi..=end_hi`, on the map as the iterations before
+    left it, the whole 32-bit `insert_range` on the partition (`C16_safe_insertRange`) resp. `full_bitmap.len()`,
+    `entry.insert(full_bitmap).len()` and their difference for a whole interior partition (:96-101), and
+    `counter += …` in `u64`.  The only excluded input is `insert_range(..)` (all `2^64` values) into the EMPTY treemap,
+    where `counter` reaches exactly `2^64` (`C16_treemap_len_2p64_observation`: `2^61` bytes, not reachable). -/
+theorem C16_safe_treemap_insertRange (t : Treemap) (hw : Treemap.TWF t) (lo hi : Bound)
+    (hlo : Bound.le u64Max lo) (hhi : Bound.le u64Max hi)
+    (hnf : t ≠ [] ∨ convertRange64 lo hi ≠ some (0, u64Max)) : Treemap.Safe_insertRange t lo hi :=
+  Treemap.safe_tm_insertRange t hw lo hi hlo hhi hnf
+/-- one partition, two partitions, five partitions (three whole interior ones, one of them existing), everything -/
+example : Treemap.Safe_insertRange C12.tEx (.incl 7) (.incl 4294967295)
+    ∧ Treemap.Safe_insertRange C12.tEx (.incl 7) (.excl 4294967300)
+    ∧ Treemap.Safe_insertRange C12.tEx (.excl 4294967000) (.incl 21474836480)
+    ∧ Treemap.Safe_insertRange C12.tEx .unb .unb :=
+  ⟨C16_safe_treemap_insertRange _ C12.tEx_TWF _ _ (by decide) (by decide) (Or.inl (by decide)),
+   C16_safe_treemap_insertRange _ C12.tEx_TWF _ _ (by decide) (by decide) (Or.inl (by decide)),
+   C16_safe_treemap_insertRange _ C12.tEx_TWF _ _ (by decide) (by decide) (Or.inl (by decide)),
+   C16_safe_treemap_insertRange _ C12.tEx_TWF _ _ (by decide) (by decide) (Or.inl (by decide))⟩
+/-- into the empty treemap every range but the whole universe -/
+example : Treemap.Safe_insertRange [] (.incl 1) .unb :=
+  C16_safe_treemap_insertRange [] Treemap.WFd.nil _ _ (by decide) (by decide) (Or.inr (by decide))
+
+/-- the hypothesis of `C16_safe_treemap_insertRange` is exactly what `counter` needs: for every well-formed treemap
+    and range the final `counter` is below `2^64` unless the range is everything and the treemap is empty. -/
+theorem C16_safe_treemap_insertRange_counter (t : Treemap) (hw : Treemap.TWF t) (lo hi : Bound)
+    (hlo : Bound.le u64Max lo) (hhi : Bound.le u64Max hi)
+    (hnf : t ≠ [] ∨ convertRange64 lo hi ≠ some (0, u64Max)) : (Treemap.insertRange t lo hi).2 < 2^64 :=
+  Treemap.insertRange_count_lt t hw lo hi hlo hhi hnf
+
+/-- `RoaringTreemap::remove_range`, the whole method (treemap/inherent.rs:207-238): `util::split`; for every partition
+    in the key range the WHOLE 32-bit `remove_range` (`C16_safe_bitmap_removeRange`) with `a ≤ u32::MAX`, `b ≤ u32::MAX`,
+    and `removed += …` in `u64` — for fewer than `2^32` partitions (with all `2^32` partitions full the counter of
+    `remove_range(..)` reaches `2^64`, the same unreachable value as in `C16_treemap_len_2p64_observation`). -/
+theorem C16_safe_treemap_removeRange (t : Treemap) (hw : Treemap.TWF t) (hl : t.length < 4294967296) (lo hi : Bound)
+    (hlo : Bound.le u64Max lo) (hhi : Bound.le u64Max hi) : Treemap.Safe_removeRange t lo hi :=
+  Treemap.safe_tm_removeRange t hw hl lo hi hlo hhi
+example : Treemap.Safe_removeRange C12.tEx (.incl 5) (.excl 17179869191) ∧ Treemap.Safe_removeRange C12.tEx .unb .unb :=
+  ⟨C16_safe_treemap_removeRange _ C12.tEx_TWF (by decide) _ _ (by decide) (by decide),
+   C16_safe_treemap_removeRange _ C12.tEx_TWF (by decide) _ _ (by decide) (by decide)⟩
+
+/-- `RoaringTreemap::append` / `from_sorted_iter` (treemap/iter.rs:522-552): `self.max()`, every `push_unchecked` (its
+    precondition holds, so no panic in either build), `count += 1` (for an iterator of fewer than `2^64` items). -/
+theorem C16_safe_treemap_append (dbg : Bool) (t : Treemap) (hw : Treemap.TWF t) (vs : List Nat)
+    (hvs : ∀ v ∈ vs, v < 2^64) (hcnt : vs.length < 2^64) : Treemap.Safe_append dbg t vs :=
+  Treemap.safe_tm_append dbg t hw (C10.C10_max t hw) vs hvs hcnt
+example : Treemap.Safe_append true C12.tEx [17179869192, 18446744073709551615, 3] :=
+  C16_safe_treemap_append true C12.tEx C12.tEx_TWF _ (by decide) (by decide)
+
+/-! ### iterators and MultiOps: the size arithmetic and the indexings (bitmap/iter.rs, treemap/iter.rs, multiops.rs) -/
+
+/-- `bitmap::Iter` / `IntoIter` `size_hint` and `count` (bitmap/iter.rs:250-265, :305-313) at EVERY cursor state
+    (`C03.IterWF` is preserved by every iterator call, `C03_step`): `it.len()` of the front / back iterators never trips
+    the `ExactSizeIterator` assertion, `first_size + last_size` (a plain `usize` `+`), `container.len() as usize`, the
+    `usize` sums of `count`. -/
+theorem C16_safe_iter_sizeHint_count (it : Iter) (h : C03.IterWF it) : Iter.Safe_sizeHint it ∧ Iter.Safe_count it :=
+  Iter.safe_sizeHint_count it h
+example : Iter.Safe_sizeHint (Bitmap.iter exB) ∧ Iter.Safe_count (Bitmap.iter exB) :=
+  C16_safe_iter_sizeHint_count _ (C03.C03_init_WF exB exB_wf).1
+example : Iter.Safe_sizeHint (Bitmap.iter exB).next.1 ∧ Iter.Safe_count (Bitmap.iter exB).next.1 := by decide +kernel
+
+/-- `nth` / `nth_back` (bitmap/iter.rs:315-341, :374-400), every `n : usize`: `n -= len` only when `len ≤ n`,
+    `container.len() as usize`, `it.len()`. -/
+theorem C16_safe_iter_nth (it : Iter) (h : it.Inv) (n : Nat) : Iter.Safe_nth it n ∧ Iter.Safe_nthBack it n :=
+  ⟨Iter.safe_nth it h n, Iter.safe_nthBack it h n⟩
+example : Iter.Safe_nth (Bitmap.iter exB) 65000 ∧ Iter.Safe_nthBack (Bitmap.iter exB) 18446744073709551615 :=
+  ⟨(C16_safe_iter_nth _ (C03.C03_init_WF exB exB_wf).1.1 _).1, (C16_safe_iter_nth _ (C03.C03_init_WF exB exB_wf).1.1 _).2⟩
+
+/-- `treemap::Iter`: `To64Iter::fold`'s `((self.hi as u64) << 32) + (lo as u64)` (treemap/iter.rs:42, :57, :82, :97) for
+    every partition key and yielded `u32`; `BitmapIter::remaining` (:593-596, a plain `u64` sum read by `size_hint`) and
+    the sum of `IntoIter::new` (:235) for fewer than `2^32` remaining partitions (with all `2^32` partitions full it is
+    the `2^64` of `C16_treemap_len_2p64_observation`).  The other additions of the two `size_hint`s saturate. -/
+theorem C16_safe_treemap_iter (hi lo : Nat) (hhi : hi < 4294967296) (hlo : lo < 4294967296)
+    (p : TIter.PIter) (h : Treemap.PartsWF p.range) (hl : p.range.length < 4294967296) :
+    TIter.Safe_foldJoin hi lo ∧ TIter.PIter.Safe_remaining p ∧ TIter.Safe_intoIterNew p.range :=
+  ⟨TIter.safe_foldJoin hi lo hhi hlo, TIter.PIter.safe_remaining p h hl, Treemap.safe_len p.range h hl⟩
+example : TIter.Safe_foldJoin 4294967295 4294967295 ∧ TIter.PIter.Safe_remaining (TIter.PIter.new C12.tEx) := by
+  decide +kernel
+
+/-- MultiOps (multiops.rs): `lhs.insert(loc, rhs)` / `&mut lhs[loc]` (:280, :281) and `containers.insert(loc, …)` /
+    `&mut containers[loc]` (:398, :401) are in range at every iteration of the merge loops — for EVERY accumulator
+    (the `binary_search_by_key` contract), so also for the not yet canonical containers in the middle of a multi-op.
+    There is no other partial operation in `multiops.rs` (see `SafeCompose.lean`). -/
+theorem C16_safe_multiops_merge (op : Store → Store → Store) (lhs rhs : List Container) (cs : List Multi.Cow) :
+    Multi.Safe_mergeContainerOwned op lhs rhs ∧ Multi.Safe_mergeContainerRef op cs rhs :=
+  ⟨Multi.safe_mergeContainerOwned op rhs lhs, Multi.safe_mergeContainerRef op rhs cs⟩
+example : Multi.Safe_mergeContainerOwned Store.orAssignOwned exB [⟨1, .array [7]⟩, ⟨2, .array [9]⟩] :=
+  (C16_safe_multiops_merge _ _ _ []).1
 
 end Roaring.C16
